@@ -22,6 +22,7 @@ func init() {
 		"fmt.Println":  noop2,
 		"fmt.Printf":   noop2,
 		"errors.As":    extErrorsAs,
+		"(*errors.joinError).Error": extJoinErrorError,
 
 		"(*sync.Mutex).Lock":      extMutexLock,
 		"(*sync.Mutex).Unlock":    extMutexUnlock,
@@ -617,4 +618,15 @@ func extAfterFunc(fr *frame, args []value) value {
 	p := new(value)
 	*p = st
 	return p
+}
+
+// extJoinErrorError: (*errors.joinError).Error builds its result with unsafe.String; same text here.
+func extJoinErrorError(fr *frame, args []value) value {
+	st := (*args[0].(*value)).(structure)
+	errs, _ := st[0].([]value)
+	var parts []string
+	for _, e := range errs {
+		parts = append(parts, fmtArg(fr, "%v", 'v', e))
+	}
+	return strings.Join(parts, "\n")
 }
